@@ -138,16 +138,24 @@ def detect_scratch(mdir, ids, jobs=4, tier="quick"):
         if rc != 0:
             print("patch does not apply:\n" + out)
             return None
-        sh(["rsync", "-a", "--exclude", "target*", os.path.join(VERIF, "harness") + "/", hz + "/"])
-        ct = os.path.join(hz, "monitor", "Cargo.toml")
+        # the machinery as committed (git archive of /verif HEAD), so that edits in progress in the
+        # working tree do not leak into an evaluation that is running in the background
+        os.makedirs(hz, exist_ok=True)
+        rc, out = sh(["bash", "-c", "git -C %s archive HEAD check harness known_findings.json | tar -x -C %s" % (VERIF, hz)])
+        if rc != 0:
+            print(out)
+            return None
+        ct = os.path.join(hz, "harness", "monitor", "Cargo.toml")
         with open(ct) as f:
             t = f.read()
         with open(ct, "w") as f:
             f.write(t.replace('path = "/repo"', 'path = "%s"' % wt))
-        env = dict(ENV, VERIF_HARNESS=hz, VERIF_OUT=outd, VERIF_JOBS=str(jobs))
+        env = dict(ENV, VERIF_JOBS=str(jobs))
+        env.pop("VERIF_HARNESS", None)
+        env.pop("VERIF_OUT", None)
         for pid in ids:
             t0 = time.time()
-            rc, out = sh([os.path.join(VERIF, "check"), pid, "--tier", tier], cwd=VERIF, env=env)
+            rc, out = sh([os.path.join(hz, "check"), pid, "--tier", tier], cwd=hz, env=env)
             fired[pid] = parse_fired(rc, out, t0)
     finally:
         sh(["git", "-C", "/repo", "worktree", "remove", "--force", wt])
@@ -208,6 +216,38 @@ def main():
                 bad += 0 if ok else 1
                 print(d, "CONFIRMED" if ok else "NOT-CONFIRMED", res.get("demo_profile"), flush=True)
         sys.exit(1 if bad else 0)
+    if cmd == "own":
+        # seeded.py own [--par N] name-part...: every selected change against the quick check of its own property
+        import concurrent.futures
+        args = sys.argv[2:]
+        par = 4
+        if "--par" in args:
+            par = int(args[args.index("--par") + 1])
+            del args[args.index("--par"):args.index("--par") + 2]
+        root = os.path.join(VERIF, "seeded")
+        todo = [d for d in sorted(os.listdir(root)) if os.path.isfile(os.path.join(root, d, "patch.diff")) and (not args or any(d.startswith(a) or d.endswith(a) for a in args))]
+
+        def one(d):
+            mdir = os.path.join(root, d)
+            pid = load_meta(mdir).get("breaks")
+            return d, pid, detect_scratch(mdir, [pid], jobs=max(2, 16 // par))
+
+        missed = []
+        with concurrent.futures.ThreadPoolExecutor(max_workers=par) as ex:
+            for d, pid, fired in ex.map(one, todo):
+                if fired is None:
+                    print(d, "FAILED", flush=True)
+                    continue
+                mdir = os.path.join(root, d)
+                meta = load_meta(mdir)
+                meta.setdefault("detected_by", {})[pid] = fired[pid]
+                save_meta(mdir, meta)
+                r = fired[pid]
+                print("%s: %s %s %s" % (d, {0: "MISSED", 1: "caught", 2: "INCONCLUSIVE"}.get(r["exit"], r["exit"]), r["rules"][:3], (r.get("inconclusive") or r["first"])[:150]), flush=True)
+                if r["exit"] != 1:
+                    missed.append(d)
+        print("missed:", " ".join(missed))
+        sys.exit(0)
     if cmd in ("detect", "detect-scratch"):
         mdir = sys.argv[2]
         ids = sys.argv[3:] or IDS
